@@ -56,6 +56,7 @@ def run_one(prop, mod, patch, repo):
         ctx = Ctx(prog, prop, "quick", None, repo=dst)
         try:
             mod.run(ctx)
+            __import__('rules.guards', fromlist=['rule_names_unambiguous']).rule_names_unambiguous(ctx, ctx.prop)
         except Exception as e:
             ctx.violated("%s/internal" % prop, ("exception", type(e).__name__), None, "rule engine raised %r" % (e,))
         bad = [r_["key"] for r_ in ctx.results if r_["verdict"] != "ok"]
